@@ -232,6 +232,17 @@ func H_l3_size_abs() {
 	b, _ := st.Marshal()
 	vAssert(vNativeTrue(len(b) <= 8*n+256), "C17.linear.bytes(native)")
 	vAssert(vNativeTrue(len(b) <= 32+m), "C17.measure-is-upper-bound(native)")
+	// the serialized size of an index loaded from a larger region (stream followed by other data)
+	// is the size of the index
+	region := append(append([]byte{}, b...), make([]byte, 1000)...)
+	st2, _ := NewSlimTrie(encode.Dummy{}, nil, nil)
+	if err2 := st2.Unmarshal(region); err2 == nil {
+		b2, _ := st2.Marshal()
+		vAssert(len(b2) == len(b), "C17.size-after-load-from-region")
+		vAssert(vMeasure(st2.inner) <= 8*n+256, "C17.upper-measure")
+	} else {
+		vAssert(false, "C17.load-from-region")
+	}
 	vObserve("n", n)
 	vObserve("measure", m)
 	vReach("end")
